@@ -10,6 +10,7 @@ import (
 	"unicode/utf8"
 
 	"github.com/db47h/decimal"
+	dctx "github.com/db47h/decimal/context"
 )
 
 // ---------------------------------------------------------------------------
@@ -154,6 +155,27 @@ func parseVia(entry, text string, base int, prec uint32, mode uint8, chunk int, 
 		}
 	case "ParseDecimal":
 		d, b, err := decimal.ParseDecimal(text, base, uint(prec), decimal.RoundingMode(mode))
+		out.ok, out.base = err == nil, b
+		if err != nil {
+			out.nilOK = d == nil
+		} else {
+			z = d
+		}
+	case "ctx.NewString":
+		// package context: "a floating-point number of the same format as accepted
+		// by Parse with base argument 0 ... d's precision and rounding mode are set
+		// to c's"
+		c := dctx.New(uint(prec), decimal.RoundingMode(mode))
+		d, ok := c.NewString(text)
+		out.ok, out.base = ok, 0
+		if !ok {
+			out.nilOK = d == nil
+		} else {
+			z = d
+		}
+	case "ctx.ParseDecimal":
+		c := dctx.New(uint(prec), decimal.RoundingMode(mode))
+		d, b, err := c.ParseDecimal(text, base)
 		out.ok, out.base = err == nil, b
 		if err != nil {
 			out.nilOK = d == nil
@@ -557,7 +579,7 @@ func structuredLit(r rng, base, maxDigits int) string {
 	return b.String()
 }
 
-var stringEntries = []string{"Parse", "SetString", "ParseDecimal", "UnmarshalText", "UnmarshalJSON"}
+var stringEntries = []string{"Parse", "SetString", "ParseDecimal", "UnmarshalText", "UnmarshalJSON", "ctx.NewString", "ctx.ParseDecimal"}
 var streamEntries = []string{"Fscan", "Fscanf", "Fscan-rs"}
 
 // runParse executes a C12 scenario. Entry "enum": all entry points, all
@@ -634,8 +656,13 @@ func runParse(sc *Scenario) *Outcome {
 		}
 		b := base
 		want := ref
-		if e != "ParseDecimal" {
+		if e != "ParseDecimal" && e != "ctx.ParseDecimal" {
 			b, want = 0, ref0
+		}
+		if strings.HasPrefix(e, "ctx.") && prec == 0 {
+			// a Context never has precision 0 (New turns it into DefaultDecimalPrec):
+			// the reference is Parse into a receiver of that precision
+			want = parseVia("Parse", text, b, decimal.DefaultDecimalPrec, mode, 0, nil, nil)
 		}
 		got := one(e, text, b, 0, nil)
 		if got.panicMsg != "" {
@@ -645,7 +672,7 @@ func runParse(sc *Scenario) *Outcome {
 			return viol("reject-not-nil", fmt.Sprintf("%s(%q) failed but returned a non-nil result", e, text), &BytesSpec{Entry: e, Text: text, Base: b, RecvPrec: prec, RecvMode: mode})
 		}
 		wk, gk := want.key(), got.key()
-		if e != "ParseDecimal" && e != "Parse" {
+		if e != "ParseDecimal" && e != "ctx.ParseDecimal" && e != "Parse" {
 			// these do not report the base
 			wk = strings.Replace(wk, fmt.Sprintf("base=%d ", want.base), "base=0 ", 1)
 			gk = strings.Replace(gk, fmt.Sprintf("base=%d ", got.base), "base=0 ", 1)
